@@ -648,6 +648,11 @@ func (f *OrefaFile) Write(b []byte) (n int, err error) {
 		return 0, &fs.PathError{Op: op, Path: f.name, Err: err}
 	}
 
+	// As write(2), a write of zero bytes changes neither the file nor the offset.
+	if len(b) == 0 {
+		return 0, nil
+	}
+
 	nd.mu.Lock()
 
 	// In append mode every write lands at the current end of the file.
@@ -687,6 +692,11 @@ func (f *OrefaFile) WriteAt(b []byte, off int64) (n int, err error) {
 
 	if off < 0 {
 		return 0, &fs.PathError{Op: "writeat", Path: f.name, Err: avfs.ErrNegativeOffset}
+	}
+
+	// As os.File does, a write of zero bytes returns at once: the file is not extended to off.
+	if len(b) == 0 {
+		return 0, nil
 	}
 
 	f.mu.RLock()
